@@ -40,6 +40,9 @@ func stepAlphabet(depth int) []seqx.Step {
 		{Op: "Reset"},
 		{Op: "With", Fields: []seqx.Field{{M: "Str", Key: k("big"), Val: strings.Repeat("B", 510)}}},
 		{Op: "With", Fields: []seqx.Field{{M: "Object", Key: k("on"), Form: "nil"}, {M: "Stringer", Key: k("sn"), Val: nil}, {M: "Interface", Key: k("in"), Val: nil}, {M: "Strs", Key: k("se"), Val: []string{}}, {M: "Dict", Key: k("de")}}}, // fields whose value is null / empty must not be dropped
+		// a context whose FIRST field is an object / embedded object larger than the 500 bytes With() reserves
+		{Op: "With", Fields: []seqx.Field{{M: "Object", Key: k("bo"), Form: "val", Sub: []seqx.Field{{M: "Str", Key: "s", Val: strings.Repeat("O", 520)}}}}},
+		{Op: "With", Fields: []seqx.Field{{M: "EmbedObject", Form: "val", Sub: []seqx.Field{{M: "Str", Key: k("be"), Val: strings.Repeat("E", 520)}}}, {M: "Array", Key: k("ba"), Form: "arr", Sub: []seqx.Field{{M: "Str", Val: strings.Repeat("A", 520)}}}}},
 		{Op: "Level", Level: zerolog.Disabled}, // muted for a while: what is derived meanwhile must still count once re-enabled
 		{Op: "HookChain", Fields: []seqx.Field{{M: "Dict", Key: k("hd"), Sub: []seqx.Field{{M: "Int", Key: "n", Val: depth}}}, {M: "Array", Key: k("ha"), Form: "arr", Sub: []seqx.Field{{M: "Str", Val: "x"}}}, {M: "Timestamp"}}},
 	}
